@@ -51,6 +51,10 @@ fn reply_bytes(s: &Script) -> Option<Vec<u8>> {
         "empty" => response("200 OK", "application/json", b""),
         "truncated" => response("200 OK", "application/json", &profile[..profile.len() / 2]),
         "wrongshape" => response("200 OK", "application/json", br#"{"foo":1}"#),
+        "emptyobj" => response("200 OK", "application/json", b"{}"),
+        "errorjson" => response("200 OK", "application/json", br#"{"error":"ForbiddenOperationException","errorMessage":"Invalid token.","path":"/session/minecraft/hasJoined"}"#),
+        "idonly" => response("200 OK", "application/json", format!(r#"{{"id":"{}"}}"#, s.reply_id).as_bytes()),
+        "nameonly" => response("200 OK", "application/json", format!(r#"{{"name":"{}","properties":[]}}"#, s.reply_name).as_bytes()),
         "nothttp" => b"\x00\x01garbage, not an HTTP response\r\n\r\n".to_vec(),
         "close" => return None,
         other => panic!("unknown script {other}"),
